@@ -213,3 +213,109 @@ Proof.
   - rewrite act_spec_solution. rewrite lam_is. cbn [evalR c]. rewrite !k1_is, atoms_is by assumption. reflexivity.
   - rewrite act_spec_solution. rewrite lam_is. cbn [evalR c]. rewrite !k1_is, atoms_is by assumption. reflexivity.
 Qed.
+
+(* on every branch but the small-argument one, the code-shaped expression denotes the chain solution *)
+Theorem model_refines_spec : forall r amass mass env t br a m lam spec,
+  activity_row r amass mass env t = OAct br a m lam spec ->
+  br <> BSmall ->
+  (br = BMain -> decay_const (Q2R (r_thalf r)) - rate (Q2R (row_flux r env)) (Q2R (row_xs r env))
+                 + rate (Q2R (fluence env)) (Q2R (row_xs2 r env)) <> 0) ->
+  evalR no_env_R a = evalR no_env_R spec.
+Proof.
+  intros until spec. intros H Hns Hd. split_row H; injection H as <- <- <- <- <-; try (exfalso; apply Hns; reflexivity);
+    assert (HA : amass <> 0%Z) by (apply Z.eqb_neq; assumption);
+    assert (HT : Q2R (r_thalf r) <> 0) by (rewrite <- Q2R_0; apply Qeq_bool_false_R; assumption).
+  - (* b *)
+    assert (HTp : Q2R (r_thalf_par r) <> 0) by (rewrite <- Q2R_0; apply Qeq_bool_false_R; assumption).
+    assert (HTT : Q2R (r_thalf_par r) <> Q2R (r_thalf r)) by (apply Qeq_bool_false_R; assumption).
+    apply b_code_eq_spec. rewrite !lam_is. intro E. apply HTT. apply decay_const_inj; assumption.
+  - apply n2_code_eq_spec.
+  - apply main_code_eq_spec.
+    + cbn [evalR c]. rewrite root_is, atoms_is, k1_is by assumption. reflexivity.
+    + rewrite lam_is. cbn [evalR c]. rewrite !k1_is. apply Hd. reflexivity.
+  - apply main_code_eq_spec.
+    + cbn [evalR c]. rewrite root_is, atoms_is, k1_is by assumption. reflexivity.
+    + rewrite lam_is. cbn [evalR c]. rewrite !k1_is. apply Hd. reflexivity.
+  - apply main_code_eq_spec.
+    + cbn [evalR c]. rewrite root_is, atoms_is, k1_is by assumption. reflexivity.
+    + rewrite lam_is. cbn [evalR c]. rewrite !k1_is. apply Hd. reflexivity.
+Qed.
+
+(* hence: the model's activity at the end of irradiation is the decay rate of the chain solution *)
+Corollary model_activity_is_chain_solution : forall r amass mass env t br a m lam spec,
+  activity_row r amass mass env t = OAct br a m lam spec ->
+  br <> BSmall ->
+  (br = BMain -> decay_const (Q2R (r_thalf r)) - rate (Q2R (row_flux r env)) (Q2R (row_xs r env))
+                 + rate (Q2R (fluence env)) (Q2R (row_xs2 r env)) <> 0) ->
+  evalR no_env_R a =
+    activity_end (chain_of br) (Q2R mass) (IZR amass) (Q2R (row_flux r env)) (Q2R (fluence env))
+                 (Q2R (row_xs r env)) (Q2R (row_xs2 r env)) (Q2R (r_thalf r)) (Q2R (r_thalf_par r)) (Q2R t).
+Proof.
+  intros until spec. intros H Hns Hd.
+  rewrite (model_refines_spec _ _ _ _ _ _ _ _ _ _ H Hns Hd).
+  apply (model_spec_is_chain_solution _ _ _ _ _ _ _ _ _ _ H).
+Qed.
+
+(* rest decay of the model: exp(-lam t) with lam = ln 2 / T is 2^(-t/T) *)
+Theorem model_rest_decay_exact : forall a lam T ti, evalR no_env_R lam = decay_const T ->
+  evalR no_env_R (rest_model a lam ti) = activity_rest (evalR no_env_R a) T (Q2R ti).
+Proof.
+  intros a lam T ti Hl. unfold rest_model, activity_rest, eexp_neg, Rpower. cbn [evalR c]. rewrite Hl.
+  unfold decay_const. f_equal. f_equal. unfold Rdiv. ring.
+Qed.
+Theorem spec_rest_decay_exact : forall s T ti,
+  evalR no_env_R (rest_spec s T ti) = activity_rest (evalR no_env_R s) (Q2R T) (Q2R ti) \/ Q2R T = 0.
+Proof.
+  intros s T ti. destruct (Req_dec (Q2R T) 0) as [E|E]; [right; assumption|left].
+  unfold rest_spec, activity_rest, eexp_neg, Rpower. cbn [evalR c]. rewrite evalR_LN2.
+  rewrite Q2R_div by (intro Z; apply E; rewrite (Qeq_eqR _ _ Z); apply Q2R_0).
+  f_equal. f_equal. unfold Rdiv. ring.
+Qed.
+
+(* ------------------------------------------------------------------ omission rules *)
+Theorem fast_omitted : forall r amass mass env t,
+  r_fast r = true -> Qeq (fast_ratio env) 0 -> activity_row r amass mass env t = OSkip.
+Proof.
+  intros r amass mass env t Hf H0. unfold activity_row. rewrite Hf.
+  apply Qeq_bool_iff in H0. rewrite H0. reflexivity.
+Qed.
+
+Theorem fast_included : forall r amass mass env t,
+  ~ Qeq (fast_ratio env) 0 -> activity_row r amass mass env t <> OSkip.
+Proof.
+  intros r amass mass env t H0 H. assert (E : Qeq_bool (fast_ratio env) 0 = false).
+  { destruct (Qeq_bool (fast_ratio env) 0) eqn:E; [|reflexivity]. apply Qeq_bool_iff in E. contradiction. }
+  unfold activity_row in H. rewrite E, andb_false_r in H. cbv zeta in H.
+  repeat (match type of H with
+  | context [if ?b then _ else _] => destruct b eqn:?
+  | context [match lin_ln2_neg ?a ?b with _ => _ end] => destruct (lin_ln2_neg a b) as [[|]|] eqn:?
+  end; try discriminate H).
+Qed.
+
+(* epithermal capture: below a cadmium ratio of 1 the resonance integrals do not enter *)
+Theorem epithermal_omitted : forall r env, (cd_ratio env < 1)%Q ->
+  Qeq (row_xs r env) (r_xs r) /\ Qeq (row_xs2 r env) (r_xs_par r).
+Proof.
+  intros r env H. unfold row_xs, row_xs2, epi_factor.
+  destruct (Qle_bool 1 (cd_ratio env)) eqn:E.
+  - apply Qle_bool_iff in E. exfalso. apply (Qlt_not_le _ _ H E).
+  - split; ring.
+Qed.
+Theorem epithermal_included : forall r env, (1 <= cd_ratio env)%Q ->
+  Qeq (row_xs r env) (r_xs r + r_res r / cd_ratio env) /\ Qeq (row_xs2 r env) (r_xs_par r + r_res_par r / cd_ratio env).
+Proof.
+  intros r env H. unfold row_xs, row_xs2, epi_factor.
+  assert (E : Qle_bool 1 (cd_ratio env) = true) by (apply Qle_bool_iff; assumption). rewrite E.
+  assert (~ cd_ratio env == 0)%Q by (intro Z; rewrite Z in H; unfold Qle in H; simpl in H; lia).
+  split; field; assumption.
+Qed.
+
+(* ------------------------------------------------------------------ natural element = abundance-weighted isotopes *)
+Theorem natural_is_abundance_sum : forall rows z isos m env t,
+  element_activity rows z isos m env t =
+  concat (map (fun ia => if Qeq_bool (m * snd ia * (1 # 100)) 0 then []
+                         else isotope_activity rows z (fst ia) (m * snd ia * (1 # 100))%Q env t) isos).
+Proof.
+  intros. unfold element_activity. rewrite flat_map_concat_map. f_equal.
+  apply map_ext. intros [a ab]. reflexivity.
+Qed.
